@@ -161,6 +161,13 @@ func buildDir() string {
 
 func cleanupBuild() {
 	os.RemoveAll(filepath.Join(verifRoot, ".build", fmt.Sprintf("p%d", os.Getpid())))
+	// scratch directories of storage-engine workers that were killed (deadline,
+	// watchdog) or died before removing theirs
+	if ms, _ := filepath.Glob(fmt.Sprintf("/dev/shm/verif-zsim-scratch-p%d-*", os.Getpid())); len(ms) > 0 {
+		for _, m := range ms {
+			os.RemoveAll(m)
+		}
+	}
 	// directories left behind by invocations that were killed
 	ents, _ := os.ReadDir(filepath.Join(verifRoot, ".build"))
 	for _, e := range ents {
@@ -315,7 +322,7 @@ func runWorker(bin string, j *job, jobPath string, race bool, timeout time.Durat
 		die2("write job: %v", err)
 	}
 	cmd := exec.Command(bin, "-test.run", "^TestWorker$", "-test.timeout", "0", "-test.count", "1")
-	cmd.Env = append(env(), "VERIF_JOB="+jobPath)
+	cmd.Env = append(env(), "VERIF_JOB="+jobPath, fmt.Sprintf("VERIF_SCRATCH_TAG=p%d", os.Getpid()))
 	if os.Getenv("GOMAXPROCS") == "" {
 		// one OS thread of Go code per worker process: the simulator releases one
 		// goroutine at a time anyway, and hand-offs between goroutines on one P
